@@ -576,7 +576,8 @@ pub fn current_record(prop: &str, class: &str, msg: String, trace: Vec<u32>) -> 
 /// message, because that is what known findings are matched on.
 pub fn describe_rendezvous_failure(sc: &Scenario, outcome: &str) -> String {
     let inf = infos(&sc.regs);
-    let heads: Vec<usize> = sc.faults.iter().filter(|f| f.kind == FaultKind::Rendezvous && f.arg == 0).map(|f| f.sid).collect();
+    let g0 = sc.faults.iter().filter(|f| f.kind == FaultKind::Rendezvous).map(|f| f.arg).min().unwrap_or(0);
+    let heads: Vec<usize> = sc.faults.iter().filter(|f| f.kind == FaultKind::Rendezvous && f.arg == g0).map(|f| f.sid).collect();
     let depth = heads.iter().filter_map(|&h| inf.get(h)).map(|i| i.depth).max().unwrap_or(0);
     let shape = if depth >= 2 && sc.pool.supplied.is_some() {
         "stage inside a batch nested two or more levels deep under a dispatcher with a supplied pool"
